@@ -734,7 +734,7 @@ func judgeC13(hi *Hist) []*Violation {
 			// the bytes of one Write stay together and in order
 			var ps []pos
 			for _, l := range ls {
-				if len(where[l]) == 1 {
+				if len(where[l]) == 1 && mult[l] == 1 {
 					ps = append(ps, where[l][0])
 				}
 			}
@@ -752,8 +752,8 @@ func judgeC13(hi *Hist) []*Violation {
 	}
 	var evs []ev
 	for _, w := range writes {
-		if len(w.lines) == 0 || len(where[w.lines[0]]) != 1 {
-			continue
+		if len(w.lines) == 0 || len(where[w.lines[0]]) != 1 || mult[w.lines[0]] > 1 {
+			continue // (a line written several times cannot be attributed to one call)
 		}
 		evs = append(evs, ev{w.op, where[w.lines[0]][0]})
 	}
